@@ -242,6 +242,9 @@ partial def drbgNonzero (seed : Bytes) (n : Nat) : Bytes :=
       | _ => acc.reverse
     go x n (4 * n + 64) []
 
+/-- number of w-bit digits of the trimmed integer (classification of OAEP blocks for the evidence histogram) -/
+def usedDigits (w m : Nat) : Nat := if m = 0 then 1 else Nat.log2 m / w + 1
+
 /-- the strings the specification admits for the decryption of `c` under the RSA context -/
 def rsaDecSpec (R : RsaCtx) (c : Bytes) (cap : Nat) : List String × List String :=
   let k := byteLen R.key.n
@@ -261,12 +264,12 @@ def rsaDecSpec (R : RsaCtx) (c : Bytes) (cap : Nat) : List String × List String
       else if (rest.takeWhile (· ≠ 0)).length < 8 then ["rsa.pkcs1.short-ps"] else ["rsa.em.wellformed"]
     | .pkcs2, y :: rest =>
       if y ≠ 0 then ["rsa.em.first!=0"]
-      else if Cp.usedDigits 64 (os2ip (rest.drop 32)) < (k - 33 + 7) / 8 then ["rsa.oaep.top-digit-zero"] else []
+      else if usedDigits 64 (os2ip (rest.drop 32)) < (k - 33 + 7) / 8 then ["rsa.oaep.top-digit-zero"] else []
     | _, _ => []
   (outs.eraseDups, (if big then ["rsa.c>=n"] else []) ++ (if strict == some [] then ["rsa.empty-msg"] else []) ++
     [if strict.isSome then "rsa.dec.accept" else "rsa.dec.reject"] ++ shape)
 
-def handleRsa (w : Nat) (R : RsaCtx) (op : String) (args : List String) (got : String) : Option Verdict :=
+def handleRsa (R : RsaCtx) (op : String) (args : List String) (got : String) : Option Verdict :=
   let k := byteLen R.key.n
   let ovh := R.pad.overhead h256
   match op, args with
@@ -285,7 +288,7 @@ def handleRsa (w : Nat) (R : RsaCtx) (op : String) (args : List String) (got : S
       | none => "err"
       | some c =>
         let c := mutate c rest
-        "c=" ++ fmtBytes c ++ " m=" ++ optBytes (Cp.rsaDec h256 w R.pad R.crt R.key c dcap)
+        "c=" ++ fmtBytes c ++ " m=" ++ optBytes (Cp.rsaDec h256 R.pad R.crt R.key c dcap)
     if !admissible then
       some { model := mdl, spec := ["err"], tags := ["rsa.enc.reject", if k < ovh then "rsa.k<overhead" else if msg.length = 0 then "rsa.len=0" else if k ≤ cap then "rsa.len>max" else "rsa.cap<k"] }
     else
@@ -305,7 +308,7 @@ def handleRsa (w : Nat) (R : RsaCtx) (op : String) (args : List String) (got : S
     let cap ← cap.toNat?
     let c ← parseBytes ct
     let (outs, tags) := rsaDecSpec R c cap
-    some { model := optBytes (Cp.rsaDec h256 w R.pad R.crt R.key c cap), spec := outs,
+    some { model := optBytes (Cp.rsaDec h256 R.pad R.crt R.key c cap), spec := outs,
            tags := tags ++ (if c.length ≠ k then ["rsa.dec.wrong-length"] else []) }
   | _, _ => none
 
@@ -770,8 +773,8 @@ def handlePc (op : String) (args : List String) (got : String) : Option Verdict 
     some { model := got, spec := ["pub=1 eq=1"], tags := ["mpcpc." ++ v] }
   | _, _ => none
 
-def handle (w : Nat) (st : State) (ep : Option C03.Env) (op : String) (args : List String) (got : String) : Option Verdict :=
-  (st.rsa.bind fun R => handleRsa w R op args got) <|>
+def handle (st : State) (ep : Option C03.Env) (op : String) (args : List String) (got : String) : Option Verdict :=
+  (st.rsa.bind fun R => handleRsa R op args got) <|>
   (st.rabin.bind fun R => handleRabin R op args got) <|>
   (st.bdpe.bind fun B => handleBdpe B op args got) <|>
   (st.phpe.bind fun P => handlePhpe P op args got) <|>
